@@ -30,7 +30,7 @@ def sig_matches(entry_sig, sig):
 
 
 def _all_parts(mod, prop, tier):
-    """the property's own parts plus the shared default-arguments part (mc/props/defaults.py) reporting-modes part (mc/props/reports.py) results-as-operands part (mc/props/compose.py) path-shapes part (mc/props/paths.py) and two-threads part (mc/props/threads.py),
+    """the property's own parts plus the shared default-arguments part (mc/props/defaults.py) reporting-modes part (mc/props/reports.py) results-as-operands part (mc/props/compose.py) path-shapes part (mc/props/paths.py) two-threads part (mc/props/threads.py) and trivial-subclass part (mc/props/subclass.py),
     where their tables have rows for it"""
     parts = list(mod.parts(tier))
     from mc.props import defaults
@@ -52,6 +52,10 @@ def _all_parts(mod, prop, tier):
     tp = threads.part(prop, tier)
     if tp is not None:
         parts.append(tp)
+    from mc.props import subclass
+    sp = subclass.part(prop)
+    if sp is not None:
+        parts.append(sp)
     return parts
 
 
